@@ -1,8 +1,913 @@
 package eng
 
+import (
+	"bytes"
+	"encoding/json"
+	"fmt"
+	"go/types"
+	"math/big"
+	"os"
+	"os/exec"
+	"path/filepath"
+	"sort"
+	"strings"
+	"sync/atomic"
+
+	"golang.org/x/tools/go/ssa"
+)
+
 // Replay turns a counterexample model into an in-package Go test and runs it on
-// the real code (go test -overlay). Outcome: confirmed | not-reproduced |
-// no-harness | build-error.
+// the real code (go test -overlay, nothing is written under the repo).
+// Outcome: confirmed | not-reproduced | no-harness | build-error.
 func Replay(o *Obligation, m *Model, opts *CheckOpts) (outcome, detail, testSrc string) {
-	return "no-harness", "no replay harness for this function yet", ""
+	defer func() {
+		if e := recover(); e != nil {
+			outcome, detail = "no-harness", fmt.Sprintf("replay generator failed: %v", e)
+		}
+	}()
+	g := o.Gen
+	fn := g.Fn
+	if fn.Parent() != nil || fn.Pkg == nil {
+		return "no-harness", "closures are not replayed directly", ""
+	}
+	// term construction is single-threaded: the lock is held except while an
+	// external process (solver, go test) runs
+	termMu.Lock()
+	defer termMu.Unlock()
+	rp := &replayer{o: o, g: g, opts: opts}
+	if why := rp.plan(); why != "" {
+		return "no-harness", why, ""
+	}
+	if why := rp.concretize(); why != "" {
+		return "not-reproduced", why, ""
+	}
+	src := rp.testSource()
+	out, err := rp.run(src)
+	if err != nil {
+		return "build-error", err.Error() + "\n" + out, src
+	}
+	oc, det := rp.judge(out)
+	return oc, det, src
 }
+
+type rparam struct {
+	name string
+	ty   types.Type
+	v    Val
+	kind string // int bool string slice ptr struct
+	// concretized
+	code string // Go expression / setup statements
+}
+
+type replayer struct {
+	o      *Obligation
+	g      *Gen
+	opts   *CheckOpts
+	params []*rparam
+	vals   map[*Term]*SExpr
+	setup  []string
+	args   []string
+	notes  []string
+	retTerms []Val
+}
+
+func (rp *replayer) supported(t types.Type, depth int) bool {
+	if _, _, ok := intRange(t); ok {
+		return true
+	}
+	switch u := t.Underlying().(type) {
+	case *types.Basic:
+		return u.Info()&(types.IsBoolean|types.IsString) != 0
+	case *types.Slice:
+		_, _, ok := intRange(u.Elem())
+		return ok || (depth == 0 && rp.supportedStruct(u.Elem()))
+	case *types.Pointer:
+		if depth > 1 {
+			return false
+		}
+		if _, _, ok := intRange(u.Elem()); ok {
+			return true
+		}
+		return rp.supportedStruct(u.Elem())
+	case *types.Struct:
+		return rp.supportedStruct(t)
+	case *types.Interface:
+		return false
+	}
+	return false
+}
+
+func (rp *replayer) supportedStruct(t types.Type) bool {
+	st, ok := t.Underlying().(*types.Struct)
+	if !ok {
+		return false
+	}
+	for i := 0; i < st.NumFields(); i++ {
+		ft := st.Field(i).Type()
+		if _, _, ok := intRange(ft); ok {
+			continue
+		}
+		switch u := ft.Underlying().(type) {
+		case *types.Basic:
+			if u.Info()&(types.IsBoolean|types.IsString) != 0 {
+				continue
+			}
+			return false
+		case *types.Struct:
+			if !rp.supportedStruct(ft) {
+				return false
+			}
+		default:
+			// other fields stay zero-valued
+			rp.notes = append(rp.notes, fmt.Sprintf("field %s of %s left zero", st.Field(i).Name(), typeStr(t)))
+		}
+	}
+	return true
+}
+
+func (rp *replayer) plan() string {
+	for _, p := range rp.g.Fn.Params {
+		if !rp.supported(p.Type(), 0) {
+			return fmt.Sprintf("parameter %s of type %s cannot be built from a model", p.Name(), typeStr(p.Type()))
+		}
+		rp.params = append(rp.params, &rparam{name: p.Name(), ty: p.Type(), v: rp.g.params[p.Name()]})
+	}
+	return ""
+}
+
+func (rp *replayer) solveValues(extra []*Term, terms []*Term) (map[*Term]*SExpr, string) {
+	asserts := rp.o.asserts(false, extra...)
+	script := ScriptValues(asserts, terms)
+	termMu.Unlock()
+	defer termMu.Lock()
+	scratch := os.Getenv("VP_SCRATCH")
+	if scratch == "" {
+		scratch = fmt.Sprintf("/var/tmp/vp-%d", os.Getpid())
+	}
+	os.MkdirAll(scratch, 0o755)
+	n := atomic.AddInt64(&queryCounter, 1)
+	file := filepath.Join(scratch, fmt.Sprintf("rv%06d.smt2", n))
+	os.WriteFile(file, []byte(script), 0o644)
+	defer os.Remove(file)
+	cmd := exec.Command("z3-new", "-T:30", file)
+	var out bytes.Buffer
+	cmd.Stdout = &out
+	cmd.Stderr = &out
+	cmd.Run()
+	s := out.String()
+	first := strings.TrimSpace(strings.SplitN(s, "\n", 2)[0])
+	if first != "sat" {
+		return nil, first
+	}
+	es := parseSExprs(s[strings.Index(s, "\n")+1:])
+	res := map[*Term]*SExpr{}
+	if len(es) == 0 || !es[0].IsL {
+		return res, "sat"
+	}
+	for i, pair := range es[0].List {
+		if i < len(terms) && pair.IsL && len(pair.List) == 2 {
+			res[terms[i]] = pair.List[1]
+		}
+	}
+	return res, "sat"
+}
+
+func leafTerms(v Val) []*Term {
+	var out []*Term
+	switch v.K {
+	case VScalar:
+		if v.T != nil {
+			out = append(out, v.T)
+		}
+	case VSlice, VStruct, VTuple:
+		for _, f := range v.F {
+			out = append(out, leafTerms(f)...)
+		}
+	}
+	return out
+}
+
+func (rp *replayer) concretize() string {
+	g := rp.g
+	// stage 1: scalar leaves, with small-buffer side constraints
+	var terms []*Term
+	var side []*Term
+	for _, p := range rp.params {
+		terms = append(terms, leafTerms(p.v)...)
+		if p.v.K == VSlice {
+			side = append(side, Le(p.v.F[2].T, IntLit(4096)), Le(p.v.F[3].T, IntLit(8192)), Eq(p.v.F[1].T, IntLit(0)))
+		}
+	}
+	vals, st := rp.solveValues(side, terms)
+	if st != "sat" {
+		side = nil
+		vals, st = rp.solveValues(nil, terms)
+		if st != "sat" {
+			return "no model for the unsliced query (" + st + ")"
+		}
+	}
+	// stage 2: fix the scalars, ask for contents / pointees / predicted results
+	var fix []*Term
+	for _, t := range terms {
+		if e, ok := vals[t]; ok && t.S == SInt {
+			if iv, ok := e.intValue(); ok {
+				fix = append(fix, Eq(t, BigLit(iv)))
+			}
+		} else if ok && t.S == SBool {
+			fix = append(fix, Eq(t, Bool(e.Atom == "true")))
+		}
+	}
+	var terms2 []*Term
+	type want struct {
+		p     *rparam
+		elems []*Term
+		leafs []leaf
+		lts   []*Term
+	}
+	wants := map[*rparam]*want{}
+	h0 := func(name string, s *Sort) *Term { return Const("H0:"+name, s) }
+	for _, p := range rp.params {
+		w := &want{p: p}
+		wants[p] = w
+		switch u := p.ty.Underlying().(type) {
+		case *types.Slice:
+			n, ok := vals[p.v.F[2].T].intValue()
+			if !ok || n.Cmp(big.NewInt(1<<22)) > 0 {
+				return fmt.Sprintf("model needs a %s-element buffer for %s", n, p.name)
+			}
+			if _, _, isInt := intRange(u.Elem()); isInt {
+				name := g.compName(&Addr{Root: RElem, RootT: u.Elem()}, leaf{})
+				arr := Select(h0(name, g.compSort(RElem, SInt)), p.v.F[0].T)
+				for i := int64(0); i < n.Int64(); i++ {
+					w.elems = append(w.elems, Select(arr, Add(p.v.F[1].T, IntLit(i))))
+				}
+				terms2 = append(terms2, w.elems...)
+			}
+		case *types.Pointer:
+			w.leafs = leavesOf(u.Elem())
+			for _, lf := range w.leafs {
+				a := &Addr{Root: RObj, RootT: u.Elem()}
+				name := g.compName(a, lf)
+				t := Select(h0(name, g.compSort(RObj, lf.Sort)), p.v.T)
+				w.lts = append(w.lts, t)
+			}
+			terms2 = append(terms2, w.lts...)
+		}
+	}
+	// predicted results at the failing return
+	vals2, st := rp.solveValues(append(side, fix...), terms2)
+	if st != "sat" {
+		vals2, st = rp.solveValues(fix, terms2)
+		if st != "sat" {
+			return "no model when fixing the inputs (" + st + ")"
+		}
+	}
+	rp.vals = vals
+	for k, v := range vals2 {
+		rp.vals[k] = v
+	}
+	// build Go code
+	for _, p := range rp.params {
+		w := wants[p]
+		vn := "in_" + sanitizeIdent(p.name)
+		switch u := p.ty.Underlying().(type) {
+		case *types.Slice:
+			arr, _ := vals[p.v.F[0].T].intValue()
+			n, _ := vals[p.v.F[2].T].intValue()
+			c, _ := vals[p.v.F[3].T].intValue()
+			if arr != nil && arr.Sign() == 0 {
+				rp.setup = append(rp.setup, fmt.Sprintf("var %s %s", vn, rp.goType(p.ty)))
+				break
+			}
+			if c.Cmp(big.NewInt(1<<22)) > 0 {
+				c = n
+			}
+			rp.setup = append(rp.setup, fmt.Sprintf("%s := make(%s, %s, %s)", vn, rp.goType(p.ty), n, c))
+			if _, _, isInt := intRange(u.Elem()); isInt {
+				bits, signed, _ := intInfo(u.Elem())
+				if bits == 8 && !signed {
+					var lit strings.Builder
+					nonzero := false
+					for _, et := range w.elems {
+						b := int64(0)
+						if e, ok := rp.vals[et]; ok {
+							if iv, ok := e.intValue(); ok {
+								b = iv.Int64() & 0xff
+							}
+						}
+						if b != 0 {
+							nonzero = true
+						}
+						fmt.Fprintf(&lit, "\\x%02x", b)
+					}
+					if nonzero {
+						rp.setup = append(rp.setup, fmt.Sprintf("copy(%s, \"%s\")", vn, lit.String()))
+					}
+				} else {
+					for i, et := range w.elems {
+						if e, ok := rp.vals[et]; ok {
+							if iv, ok := e.intValue(); ok && iv.Sign() != 0 {
+								rp.setup = append(rp.setup, fmt.Sprintf("%s[%d] = %s", vn, i, rp.intLit(iv, u.Elem())))
+							}
+						}
+					}
+				}
+			}
+		case *types.Pointer:
+			ref, _ := vals[p.v.T].intValue()
+			if ref == nil || ref.Sign() == 0 {
+				rp.setup = append(rp.setup, fmt.Sprintf("var %s %s", vn, rp.goType(p.ty)))
+				break
+			}
+			rp.setup = append(rp.setup, fmt.Sprintf("%s := new(%s)", vn, rp.goType(u.Elem())))
+			for i, lf := range w.leafs {
+				e, ok := rp.vals[w.lts[i]]
+				if !ok || strings.Contains(lf.Path, "#") {
+					continue
+				}
+				target := vn + lf.Path
+				if lf.Path == "" {
+					target = "*" + vn
+				}
+				if strings.Contains(lf.Path, "._") || strings.HasSuffix(lf.Path, "_") {
+					continue
+				}
+				switch {
+				case lf.Sort == SBool:
+					rp.setup = append(rp.setup, fmt.Sprintf("%s = %s", target, e.Atom))
+				case lf.Sort == SInt:
+					if _, _, isInt := intRange(lf.Ty); isInt {
+						if iv, ok := e.intValue(); ok {
+							rp.setup = append(rp.setup, fmt.Sprintf("%s = %s", target, rp.intLit(iv, lf.Ty)))
+						}
+					}
+				}
+			}
+		case *types.Struct:
+			rp.setup = append(rp.setup, fmt.Sprintf("var %s %s", vn, rp.goType(p.ty)))
+			for _, lf := range leavesOf(p.ty) {
+				lv := p.v.at(lf.Acc)
+				if lv.K != VScalar || lv.T == nil || strings.Contains(lf.Path, "#") {
+					continue
+				}
+				e, ok := vals[lv.T]
+				if !ok {
+					continue
+				}
+				if _, _, isInt := intRange(lf.Ty); isInt {
+					if iv, ok := e.intValue(); ok {
+						rp.setup = append(rp.setup, fmt.Sprintf("%s%s = %s", vn, lf.Path, rp.intLit(iv, lf.Ty)))
+					}
+				} else if lf.Sort == SBool {
+					rp.setup = append(rp.setup, fmt.Sprintf("%s%s = %s", vn, lf.Path, e.Atom))
+				}
+			}
+		default:
+			e := vals[p.v.T]
+			switch {
+			case p.v.T != nil && p.v.T.S == SBool:
+				a := "false"
+				if e != nil {
+					a = e.Atom
+				}
+				rp.setup = append(rp.setup, fmt.Sprintf("%s := %s", vn, a))
+			case isStringType(p.ty):
+				rp.setup = append(rp.setup, fmt.Sprintf("%s := %s(\"\")", vn, rp.goType(p.ty)))
+				rp.notes = append(rp.notes, "string parameter "+p.name+" set to \"\" (strings are uninterpreted in the model)")
+			default:
+				iv := big.NewInt(0)
+				if e != nil {
+					if x, ok := e.intValue(); ok {
+						iv = x
+					}
+				}
+				rp.setup = append(rp.setup, fmt.Sprintf("%s := %s", vn, rp.intLit(iv, p.ty)))
+			}
+		}
+		rp.args = append(rp.args, vn)
+	}
+	return ""
+}
+
+func sanitizeIdent(s string) string {
+	var sb strings.Builder
+	for _, c := range s {
+		if c >= 'a' && c <= 'z' || c >= 'A' && c <= 'Z' || c >= '0' && c <= '9' || c == '_' {
+			sb.WriteRune(c)
+		} else {
+			sb.WriteByte('_')
+		}
+	}
+	return sb.String()
+}
+
+func (rp *replayer) goType(t types.Type) string {
+	pkg := rp.g.Fn.Pkg.Pkg
+	return types.TypeString(t, func(p *types.Package) string {
+		if p == pkg {
+			return ""
+		}
+		return p.Name()
+	})
+}
+
+func (rp *replayer) intLit(v *big.Int, t types.Type) string {
+	return fmt.Sprintf("%s(%s)", rp.goType(t), v.String())
+}
+
+func (rp *replayer) testSource() string {
+	g := rp.g
+	fn := g.Fn
+	var sb strings.Builder
+	fmt.Fprintf(&sb, "package %s\n\n", fn.Pkg.Pkg.Name())
+	sb.WriteString("// Generated by govc from a solver model: replay of obligation\n")
+	fmt.Fprintf(&sb, "// %s\n// clause: %s\n", rp.o.Name, rp.o.Clause)
+	for _, n := range rp.notes {
+		fmt.Fprintf(&sb, "// note: %s\n", n)
+	}
+	sb.WriteString("\nimport (\n\t\"errors\"\n\t\"fmt\"\n\t\"testing\"\n)\n\nvar _ = errors.Is\n\n")
+	sb.WriteString("func TestVPReplay(t *testing.T) {\n")
+	for _, s := range rp.setup {
+		fmt.Fprintf(&sb, "\t%s\n", s)
+	}
+	sb.WriteString("\tfunc() {\n\t\tdefer func() {\n\t\t\tif r := recover(); r != nil {\n\t\t\t\tfmt.Printf(\"VPR panic %q\\n\", fmt.Sprint(r))\n\t\t\t}\n\t\t}()\n")
+	res := fn.Signature.Results()
+	var rn []string
+	for i := 0; i < res.Len(); i++ {
+		rn = append(rn, fmt.Sprintf("r%d", i))
+	}
+	call := ""
+	args := rp.args
+	if fn.Signature.Recv() != nil {
+		call = fmt.Sprintf("%s.%s(%s)", args[0], fn.Name(), strings.Join(args[1:], ", "))
+	} else {
+		call = fmt.Sprintf("%s(%s)", fn.Name(), strings.Join(args, ", "))
+	}
+	if fn.Signature.Variadic() {
+		call = strings.TrimSuffix(call, ")") + "...)"
+	}
+	if len(rn) > 0 {
+		fmt.Fprintf(&sb, "\t\t%s := %s\n", strings.Join(rn, ", "), call)
+	} else {
+		fmt.Fprintf(&sb, "\t\t%s\n", call)
+	}
+	sb.WriteString("\t\tfmt.Println(\"VPR returned\")\n")
+	sentinels := rp.sentinelNames()
+	for i := 0; i < res.Len(); i++ {
+		t := res.At(i).Type()
+		switch {
+		case isErrorType(t):
+			fmt.Fprintf(&sb, "\t\tfmt.Printf(\"VPR ret %d err %%v\\n\", r%d != nil)\n", i, i)
+			for _, s := range sentinels {
+				fmt.Fprintf(&sb, "\t\tfmt.Printf(\"VPR ret %d errIs %s %%v\\n\", errors.Is(r%d, %s))\n", i, s, i, s)
+			}
+		case func() bool { _, _, ok := intRange(t); return ok }():
+			fmt.Fprintf(&sb, "\t\tfmt.Printf(\"VPR ret %d int %%d\\n\", r%d)\n", i, i)
+		case scalarSort(t) == SBool:
+			fmt.Fprintf(&sb, "\t\tfmt.Printf(\"VPR ret %d bool %%v\\n\", r%d)\n", i, i)
+		default:
+			if sl, ok := t.Underlying().(*types.Slice); ok {
+				fmt.Fprintf(&sb, "\t\tfmt.Printf(\"VPR ret %d len %%d\\n\", len(r%d))\n", i, i)
+				if _, _, isInt := intRange(sl.Elem()); isInt {
+					fmt.Fprintf(&sb, "\t\tfmt.Printf(\"VPR ret %d elems %%v\\n\", r%d)\n", i, i)
+				} else {
+					fmt.Fprintf(&sb, "\t\tfmt.Printf(\"VPR ret %d elemsv %%+v\\n\", r%d)\n", i, i)
+				}
+			} else if _, ok := t.Underlying().(*types.Pointer); ok {
+				fmt.Fprintf(&sb, "\t\tfmt.Printf(\"VPR ret %d ptr %%v\\n\", r%d != nil)\n", i, i)
+			} else {
+				fmt.Fprintf(&sb, "\t\t_ = r%d\n", i)
+			}
+		}
+	}
+	sb.WriteString("\t}()\n")
+	for i, p := range rp.params {
+		if _, ok := p.ty.Underlying().(*types.Slice); ok {
+			fmt.Fprintf(&sb, "\tfmt.Printf(\"VPR post %s %%v\\n\", %s)\n", p.name, rp.args[i])
+		}
+	}
+	sb.WriteString("}\n")
+	return sb.String()
+}
+
+func (rp *replayer) sentinelNames() []string {
+	var out []string
+	sc := rp.g.Fn.Pkg.Pkg.Scope()
+	for _, n := range sc.Names() {
+		if v, ok := sc.Lookup(n).(*types.Var); ok && isErrorType(v.Type()) {
+			out = append(out, n)
+		}
+	}
+	sort.Strings(out)
+	return out
+}
+
+func (rp *replayer) run(src string) (string, error) {
+	scratch := os.Getenv("VP_SCRATCH")
+	if scratch == "" {
+		scratch = fmt.Sprintf("/var/tmp/vp-%d", os.Getpid())
+	}
+	n := atomic.AddInt64(&queryCounter, 1)
+	dir := filepath.Join(scratch, fmt.Sprintf("replay%d", n))
+	os.MkdirAll(dir, 0o755)
+	defer os.RemoveAll(dir)
+	testFile := filepath.Join(dir, "zz_vp_replay_test.go")
+	os.WriteFile(testFile, []byte(src), 0o644)
+	pkgDir := strings.TrimPrefix(rp.g.Fn.Pkg.Pkg.Path(), ModPath+"/")
+	target := filepath.Join(rp.opts.RepoDir, pkgDir, "zz_vp_replay_test.go")
+	ov, _ := json.Marshal(map[string]any{"Replace": map[string]string{target: testFile}})
+	ovFile := filepath.Join(dir, "overlay.json")
+	os.WriteFile(ovFile, ov, 0o644)
+	cmd := exec.Command("go", "test", "-tags", "verif", "-overlay", ovFile, "-vet=off", "-count=1", "-v", "-timeout", "60s", "-run", "^TestVPReplay$", "./"+pkgDir+"/")
+	cmd.Dir = rp.opts.RepoDir
+	cmd.Env = append(os.Environ(), "GOFLAGS=-mod=mod", "GOPROXY=off")
+	var out bytes.Buffer
+	cmd.Stdout = &out
+	cmd.Stderr = &out
+	termMu.Unlock()
+	err := cmd.Run()
+	termMu.Lock()
+	s := out.String()
+	if !strings.Contains(s, "VPR ") {
+		if err != nil {
+			return s, fmt.Errorf("go test failed: %v", err)
+		}
+		return s, fmt.Errorf("replay test produced no output")
+	}
+	return s, nil
+}
+
+var panicKinds = map[string]bool{"index": true, "slice-bounds": true, "nil-deref": true, "div-zero": true, "no-panic": true, "makeslice": true, "type-assert": true, "nil-map": true}
+
+func (rp *replayer) judge(out string) (string, string) {
+	var lines []string
+	panicked := ""
+	returned := false
+	for _, l := range strings.Split(out, "\n") {
+		if strings.HasPrefix(l, "VPR ") {
+			lines = append(lines, l)
+			if strings.HasPrefix(l, "VPR panic ") {
+				panicked = strings.TrimPrefix(l, "VPR panic ")
+			}
+			if l == "VPR returned" {
+				returned = true
+			}
+		}
+	}
+	detail := strings.Join(lines, "\n")
+	if len(detail) > 4000 {
+		detail = detail[:4000] + "..."
+	}
+	kind := rp.o.Kind
+	if panicKinds[kind] || kind == "pre" {
+		if panicked != "" {
+			return "confirmed", "the real code panics on the model's input: " + panicked + "\n" + detail
+		}
+		return "not-reproduced", "the real code did not panic on the model's input\n" + detail
+	}
+	if kind == "post" {
+		if panicked != "" {
+			return "confirmed", "the real code panics on the model's input (postcondition cannot hold): " + panicked + "\n" + detail
+		}
+		if !returned {
+			return "not-reproduced", detail
+		}
+		ok, why := rp.evalPost(lines)
+		if ok == "false" {
+			return "confirmed", "postcondition evaluates to false on the real result: " + why + "\n" + detail
+		}
+		if ok == "true" {
+			return "not-reproduced", "postcondition holds on the real result for the model's input\n" + detail
+		}
+		return "not-reproduced", "postcondition could not be evaluated concretely: " + why + "\n" + detail
+	}
+	return "no-harness", "no concrete check for obligations of kind " + kind + "\n" + detail
+}
+
+// evalPost evaluates the failing ensures clause on the concrete inputs and the
+// real outputs by folding terms over literals.
+func (rp *replayer) evalPost(lines []string) (string, string) {
+	g := rp.g
+	o := rp.o
+	// find the clause
+	var cl *Clause
+	for _, c := range g.C.Ensures {
+		if c.Text == o.Clause {
+			cl = c
+		}
+	}
+	if cl == nil {
+		return "unknown", "clause not found"
+	}
+	subst := map[*Term]*Term{}
+	// inputs
+	for t, e := range rp.vals {
+		switch t.S {
+		case SInt:
+			if iv, ok := e.intValue(); ok {
+				subst[t] = BigLit(iv)
+			}
+		case SBool:
+			subst[t] = Bool(e.Atom == "true")
+		}
+	}
+	// outputs: bind result names to literal values
+	vars := map[string]Val{}
+	res := g.Fn.Signature.Results()
+	names := g.resultNames()
+	st := g.entry.clone()
+	nextRef := int64(1 << 40)
+	for i := 0; i < res.Len(); i++ {
+		t := res.At(i).Type()
+		pfx := fmt.Sprintf("VPR ret %d ", i)
+		var v Val
+		found := false
+		for _, l := range lines {
+			if !strings.HasPrefix(l, pfx) {
+				continue
+			}
+			f := strings.Fields(strings.TrimPrefix(l, pfx))
+			if len(f) < 2 {
+				continue
+			}
+			switch f[0] {
+			case "int":
+				iv, ok := new(big.Int).SetString(f[1], 10)
+				if ok {
+					v = scalar(BigLit(iv), t)
+					found = true
+				}
+			case "bool":
+				v = scalar(Bool(f[1] == "true"), t)
+				found = true
+			case "err":
+				if f[1] == "false" {
+					v = scalar(IntLit(0), t)
+				} else {
+					nextRef++
+					v = scalar(IntLit(nextRef), t)
+				}
+				found = true
+			case "ptr":
+				if f[1] == "false" {
+					v = scalar(IntLit(0), t)
+					found = true
+				}
+			case "len":
+				if sl, ok := t.Underlying().(*types.Slice); ok {
+					n, _ := new(big.Int).SetString(f[1], 10)
+					nextRef++
+					ref := IntLit(nextRef)
+					v = Val{K: VSlice, Ty: t, F: []Val{scalar(ref, nil), scalar(IntLit(0), nil), scalar(BigLit(n), nil), scalar(BigLit(n), nil)}}
+					found = true
+					if _, _, isInt := intRange(sl.Elem()); isInt {
+						// contents
+						for _, l2 := range lines {
+							p2 := fmt.Sprintf("VPR ret %d elems ", i)
+							if strings.HasPrefix(l2, p2) {
+								body := strings.Trim(strings.TrimPrefix(l2, p2), "[]")
+								name := g.compName(&Addr{Root: RElem, RootT: sl.Elem()}, leaf{})
+								cs := g.compSort(RElem, SInt)
+								h := g.heapGet(st, name, cs)
+								arr := ConstArray(ArraySort(SInt, SInt), IntLit(0))
+								for k, x := range strings.Fields(body) {
+									if xv, ok := new(big.Int).SetString(x, 10); ok {
+										arr = Store(arr, IntLit(int64(k)), BigLit(xv))
+									}
+								}
+								st.Heap[name] = Store(h, ref, arr)
+							}
+						}
+					}
+				}
+			}
+		}
+		if found && i < len(names) {
+			vars[names[i]] = v
+			if res.Len() == 1 {
+				vars["result"] = v
+			}
+		}
+	}
+	// errIs facts from the real run
+	errFacts := map[string]bool{}
+	for _, l := range lines {
+		f := strings.Fields(l)
+		if len(f) == 6 && f[3] == "errIs" {
+			errFacts[f[2]+"/"+f[4]] = f[5] == "true"
+		}
+	}
+	sc := g.specCtxVars(st, g.entry, vars)
+	sc.useParams = true
+	saved := len(g.Defs)
+	t, err := sc.boolTerm(cl.E)
+	g.Defs = g.Defs[:saved]
+	if err != nil {
+		return "unknown", err.Error()
+	}
+	// substitute the concrete inputs (parameters, entry heap cells)
+	t = Subst(t, subst)
+	t = rp.foldEntryHeap(t)
+	t = rp.foldErrIs(t, vars, names, errFacts)
+	t = simplifyDeep(t)
+	switch {
+	case t.IsTrue():
+		return "true", ""
+	case t.IsFalse():
+		return "false", ExprString(cl.E)
+	}
+	s := t.String()
+	if len(s) > 300 {
+		s = s[:300] + "..."
+	}
+	return "unknown", "residual term " + s
+}
+
+// foldEntryHeap replaces reads of entry-heap cells whose value the model fixed.
+func (rp *replayer) foldEntryHeap(t *Term) *Term {
+	m := map[*Term]*Term{}
+	for k, e := range rp.vals {
+		if k.Op != "select" {
+			continue
+		}
+		kk := simplifyDeep(Subst(k, rp.litSubst()))
+		switch k.S {
+		case SInt:
+			if iv, ok := e.intValue(); ok {
+				m[kk] = BigLit(iv)
+				m[k] = BigLit(iv)
+			}
+		case SBool:
+			m[kk] = Bool(e.Atom == "true")
+			m[k] = Bool(e.Atom == "true")
+		}
+	}
+	return Subst(simplifyDeep(t), m)
+}
+
+func (rp *replayer) litSubst() map[*Term]*Term {
+	subst := map[*Term]*Term{}
+	for t, e := range rp.vals {
+		if t.Op != "const" {
+			continue
+		}
+		switch t.S {
+		case SInt:
+			if iv, ok := e.intValue(); ok {
+				subst[t] = BigLit(iv)
+			}
+		case SBool:
+			subst[t] = Bool(e.Atom == "true")
+		}
+	}
+	return subst
+}
+
+func (rp *replayer) foldErrIs(t *Term, vars map[string]Val, names []string, facts map[string]bool) *Term {
+	m := map[*Term]*Term{}
+	var rec func(x *Term)
+	seen := map[*Term]bool{}
+	rec = func(x *Term) {
+		if seen[x] {
+			return
+		}
+		seen[x] = true
+		if x.Op == "app" && x.Name == "vp_errIs" && len(x.Args) == 2 {
+			// which result, which sentinel?
+			for i, n := range names {
+				v, ok := vars[n]
+				if !ok || v.T != x.Args[0] {
+					continue
+				}
+				tn := x.Args[1]
+				if tn.Op == "const" && strings.HasPrefix(tn.Name, "H0:G:!") {
+					gn := tn.Name[strings.LastIndex(tn.Name, ".")+1:]
+					if f, ok := facts[fmt.Sprintf("%d/%s", i, gn)]; ok {
+						m[x] = Bool(f)
+					}
+				}
+			}
+		}
+		for _, a := range x.Args {
+			rec(a)
+		}
+	}
+	rec(t)
+	return Subst(t, m)
+}
+
+// simplifyDeep rebuilds a term bottom-up so that constructor-level folding applies.
+func simplifyDeep(t *Term) *Term {
+	memo := map[*Term]*Term{}
+	var rec func(t *Term) *Term
+	rec = func(t *Term) *Term {
+		if len(t.Args) == 0 {
+			return t
+		}
+		if r, ok := memo[t]; ok {
+			return r
+		}
+		if t.Op == "forall" || t.Op == "exists" {
+			r := expandBounded(t, rec)
+			memo[t] = r
+			return r
+		}
+		args := make([]*Term, len(t.Args))
+		for i, a := range t.Args {
+			args[i] = rec(a)
+		}
+		r := rebuild(t, args)
+		memo[t] = r
+		return r
+	}
+	return rec(t)
+}
+
+// expandBounded unrolls forall/exists over one Int variable whose range is given
+// by literal bounds in the body (lo <= j && j < hi ==> P).
+func expandBounded(q *Term, rec func(*Term) *Term) *Term {
+	if len(q.Bound) != 1 || q.Bound[0].S != SInt {
+		return q
+	}
+	bv := q.Bound[0]
+	body := q.Args[0]
+	lo, hi, ok := literalBounds(body, bv, q.Op == "forall")
+	if !ok || hi-lo > 1<<16 {
+		return q
+	}
+	var parts []*Term
+	for i := lo; i <= hi; i++ {
+		parts = append(parts, rec(Subst(body, map[*Term]*Term{bv: IntLit(i)})))
+	}
+	if q.Op == "forall" {
+		return And(parts...)
+	}
+	return Or(parts...)
+}
+
+func literalBounds(body, bv *Term, forall bool) (int64, int64, bool) {
+	// collect guards: forall: body = (=> G P) [nested]; exists: body = (and G P)
+	var guards []*Term
+	b := body
+	for {
+		if forall && b.Op == "=>" {
+			guards = append(guards, b.Args[0])
+			b = b.Args[1]
+			continue
+		}
+		break
+	}
+	if !forall && body.Op == "and" {
+		guards = append(guards, body.Args...)
+	}
+	var flat []*Term
+	for _, gd := range guards {
+		if gd.Op == "and" {
+			flat = append(flat, gd.Args...)
+		} else {
+			flat = append(flat, gd)
+		}
+	}
+	lo, hi := int64(-1<<62), int64(1<<62)
+	for _, c := range flat {
+		c = simplifyNoQuant(c)
+		if (c.Op == "<=" || c.Op == "<") && len(c.Args) == 2 {
+			a, b2 := c.Args[0], c.Args[1]
+			if a.Op == "int" && b2 == bv && a.IV.IsInt64() {
+				v := a.IV.Int64()
+				if c.Op == "<" {
+					v++
+				}
+				if v > lo {
+					lo = v
+				}
+			}
+			if b2.Op == "int" && a == bv && b2.IV.IsInt64() {
+				v := b2.IV.Int64()
+				if c.Op == "<" {
+					v--
+				}
+				if v < hi {
+					hi = v
+				}
+			}
+		}
+	}
+	if lo <= -1<<61 || hi >= 1<<61 {
+		return 0, 0, false
+	}
+	return lo, hi, true
+}
+
+func simplifyNoQuant(t *Term) *Term {
+	if len(t.Args) == 0 || t.Op == "forall" || t.Op == "exists" {
+		return t
+	}
+	args := make([]*Term, len(t.Args))
+	for i, a := range t.Args {
+		args[i] = simplifyNoQuant(a)
+	}
+	return rebuild(t, args)
+}
+
+var _ = ssa.NewConst
